@@ -872,12 +872,15 @@ def address_view(w, a, skip_rids=()):
             m[v] = len(m)
         return m[v]
     out = []
+    desync = set()     # connections whose inbound stream was desynchronised by a raw fragment
     for e in w.log:
         if e.c is None or w.conns[e.c].a != a:
             continue
         if skip_rids and e.ctx and e.ctx[0] == "api" and e.ctx[-1] in skip_rids:
             continue
         k = e.k
+        if k == "rx" and e.d["desc"][0] == "RAW":
+            desync.add(e.c)
         if k == "write":
             frs = []
             for fr in e.d["frames"]:
@@ -908,6 +911,12 @@ def address_view(w, a, skip_rids=()):
             d.pop("robj", None)
             if "payload" in d:
                 d["payload"] = _norm_marker(bytes(d["payload"]), ren)
+                if e.c in desync:
+                    # later packets may be delivered as the payload / topic of the fragment: the identifiers
+                    # and markers inside them are shared by the addresses and cannot be renamed there
+                    d["payload"] = ("bytes", len(bytes(e.d["payload"])))
+                    if "topic" in d:
+                        d["topic"] = ("chars", len(e.d["topic"]))
             if d.get("msgid") is not None and "msgid" in d:
                 d["msgid"] = d["msgid"]       # inbound ids are the broker's, identical in both runs
             out.append(("cb", round(e.t, 6), tuple(sorted((x, repr(y)) for x, y in d.items()))))
